@@ -9,7 +9,13 @@ Worlds run behind every front door of the library in turn (harness/srvx.py: Twis
 fresh thread, the thread TwistedServer / ThreadedServer build in their constructor, the socket loop of _UdpServer.run
 on a scripted socket) and with the context configured before or after the server object was built.
 halfopen_world: peers that hold a session key but never complete the handshake, over many seconds (byte AND datagram
-accounting per address that never got a connect event)."""
+accounting per address that never got a connect event).
+refusing_transport_world (implementation only): the Twisted send path as the library wires it — the tick's batch goes through
+TwistedServer.sendPackets -> reactor.callFromThread(sendPacketsUnsafe) (stub reactor, inline or lagging) to a transport whose
+write() RAISES for destinations the OS refuses (port 0 as srvsim.MockSock; limited broadcast and class E when this kernel
+refuses them), as twisted's udp.Port.write does.  Well-formed client hellos forged from such addresses (and from ordinary
+ones) arrive in the very ticks in which established echo clients have something to be sent.  Oracle: every message of an
+established honest client is echoed, the loop stays alive, nothing is written to a blocked IP."""
 import struct
 from harness import lib
 from harness import connsim as S
@@ -506,6 +512,117 @@ def halfopen_world(run, rng, idx, front):
     finally:
         w.close()
 
+REFUSING_RULE = ("refusing-transport worlds (implementation only): 1-3 established echo clients behind twisted-reactor / threaded-reactor "
+                 "(stub reactor inline or lagging up to 2 ticks; transport.write raises OSError for port 0 / limited broadcast / class E as "
+                 "measured on this kernel); in 60% of the ticks 1-3 well-formed client hellos from fresh unanswerable source addresses "
+                 "(+ ordinary fresh addresses, + garbage) arrive together with the honest clients' messages; non-trivial = world with >= 10 "
+                 "echoes due in ticks in which a forged hello from an unanswerable address was answered")
+
+
+def refusing_transport_world(run, rng, idx, front, hello):
+    from harness import srvx as X
+    policy = V.random_policy(rng, p_raise=0.0, echo=1.0, chatty=False)
+    lag = rng.choice([0, 0, 1, 2])
+    busy = {"n": 0}
+
+    def reactor_busy(w):
+        if busy["n"] > 0:
+            busy["n"] -= 1
+            return True
+        if lag and rng.random() < 0.4:
+            busy["n"] = rng.randrange(0, lag)
+            return True
+        return False
+    w = X.WorldX(run, rng, cfg=(5 * T, 2 * T, 1536, T), blocklist=BLOCKED, policy=policy, full=False, front=front,
+                 reactor_busy=reactor_busy)
+    sim = w.sim
+    if lag == 0:
+        sim.reactor.inline = True
+    honest = [w.add_client(("10.1.0.%d" % (i + 1), 5000 + i)) for i in range(rng.choice([1, 2, 3]))]
+    sent = {id(r): [] for r in honest}
+    nsteps = rng.randrange(60, 100) * (2 if run.thorough() else 1)
+    kinds = [k for k in ("port0", "broadcast", "classE") if X.refused_by_os({"port0": ("10.9.9.9", 0), "broadcast": ("255.255.255.255", 4000),
+                                                                             "classE": ("240.0.0.1", 4000)}[k])]
+    nforged = 0
+    forged_steps = set()
+    died_at = None
+    base = {"scenario": "refusing transport", "world": idx, "front": front, "reactor_lag_ticks_up_to": lag}
+    try:
+        for st in range(nsteps):
+            extra = []
+            talking = False
+            for rec in honest:
+                hc = rec["hc"]
+                if hc.status() == 2 and rng.random() < 0.7 and st < nsteps - 12:
+                    p = b"r%d-%d-" % (idx, st) + bytes(rng.randrange(256) for _ in range(rng.choice([0, 3, 50, 700])))
+                    hc.client.send(p)
+                    sent[id(rec)].append((st, p))
+                    talking = True
+            if all(r["hc"].status() == 2 for r in honest) and rng.random() < 0.6:
+                for _ in range(rng.choice([1, 1, 2, 3])):
+                    nforged += 1
+                    k = rng.choice(kinds + ["port0"])
+                    if k == "port0":
+                        a = ("10.8.%d.%d" % (nforged // 250, nforged % 250 + 1), 0)
+                    elif k == "broadcast":
+                        a = ("255.255.255.255", 1024 + nforged)
+                    else:
+                        a = ("%d.%d.%d.%d" % (rng.randrange(240, 256), rng.randrange(256), nforged // 250, nforged % 250 + 1), 1024 + nforged)
+                    if a[0] == "255.255.255.255" and a in sim.ctxt.temp_connections:
+                        continue
+                    extra.append((a, hello))
+                    forged_steps.add(st)
+                if rng.random() < 0.4:
+                    extra.append((("10.7.%d.%d" % (nforged // 250, nforged % 250 + 1), 4000), hello))      # answerable
+                if rng.random() < 0.3:
+                    extra.append(((rng.choice(BLOCKED), 4444), hello))
+                rng.shuffle(extra)
+            alive = w.step(rng.choice([300, 300, 600]), extra)
+            if not alive:
+                died_at = st
+                run.oracle_violation("server loop died", dict(base, what="server loop died", step=st, exception=repr(sim.thread_exc)[:200]),
+                                     "server.py:UdpServerThread.run")
+                break
+        for _ in range(4):
+            if died_at is None:
+                w.step(300, [])
+        w.finish()
+        for wr in sim.written:
+            if wr["addr"][0] in BLOCKED:
+                run.oracle_violation("reply to a blocked IP", dict(base, what="reply to blocked ip", addr=list(wr["addr"])), "twisted.py gate")
+        echoes, in_forged = 0, 0
+        for rec in honest:
+            got = set(rec["hc"].got)
+            for st, p in sent[id(rec)]:
+                if b"echo:" + p[:600] in got:
+                    echoes += 1
+                    # the echo is built one or two loop iterations after the tick the message was fed in
+                    if {st, st + 1, st + 2} & forged_steps:
+                        in_forged += 1
+                elif died_at is None:
+                    near = sorted(x for x in forged_steps if st - 1 <= x <= st + 3)
+                    run.oracle_violation("honest client not served",
+                                         dict(base, what="honest client not served", client=list(rec["addr"]), sent_at_step=st, payload=p[:30],
+                                              forged_hellos_from_unanswerable_addresses_in_steps=near,
+                                              writes_refused_by_transport=len(sim.refused_writes),
+                                              reactor_errors=[e for e in sim.reactor.errors if st - 1 <= e[0] <= st + 4][:3]),
+                                         "server.py:UdpServerThread.run (order of the batch) / twisted.py:sendPacketsUnsafe")
+        if sim.internal:
+            raise RuntimeError("harness-internal problem: %s" % sim.internal[:3])
+        run.count("refusing-transport worlds")
+        run.count("refusing-transport worlds behind " + front)
+        run.count("refusing-transport forged hellos", nforged)
+        run.count("refusing-transport writes refused", len(sim.refused_writes))
+        run.count("refusing-transport echoes", echoes)
+        run.evaluations += len(sim.steps)
+        if in_forged >= 10 and sim.refused_writes:
+            run.nt(("refusing", idx, front, echoes, len(sim.refused_writes)))
+        if idx < 2:
+            run.sample(dict(base, steps=len(sim.steps), echoes=echoes, forged=nforged, refused=len(sim.refused_writes), kinds=kinds))
+    finally:
+        w.close()
+
+
 def run(run):
     run.rules.append(RULE)
     run.notes.append("kernel refuses sendto(port 0): %s" % V.os_refuses_port0())
@@ -535,3 +652,9 @@ def run(run):
         impl.append([0])
         model.append(d)
     run.compare("srv_run", cases, impl, model)
+    run.rules.append(REFUSING_RULE)
+    run.notes.append("transport refuses: port 0 (always), limited broadcast: %s, class E: %s (measured)" % (
+        X.refused_by_os(("255.255.255.255", 4000)), X.refused_by_os(("240.0.0.1", 4000))))
+    with X.logging_enabled():
+        for i in range(60 if run.thorough() else 10):
+            refusing_transport_world(run, run.rng, i, X.REACTOR_FRONTS[i % 2], hello)
